@@ -40,7 +40,9 @@ def run_proc(args):
     binary, script, proc = args
     # "-slowexit" processes run the hooked binary with the window between bestmove and the release of the search
     # state widened (timing perturbation: a GUI command arriving right after bestmove finds the search thread still there)
-    env = {"TCHERAN_VERIF_DELAY_MS": "exit=60"} if "slowexit" in proc else None
+    # (the release of the search state and, separately, the step after bestmove are slowed down: a state that is still
+    # held when the move has been announced stays held for another 60 ms)
+    env = {"TCHERAN_VERIF_DELAY_MS": "exit=60,latch=60"} if "slowexit" in proc else None
     s = uci.Session(binary, env=env)
     events = [{"cmd": "start", "i": 0, "v": 0, "p": "", "d": 0, "out": "", "proc": proc}]
     nready = 0
